@@ -54,7 +54,14 @@ macro_rules! harnesses {
         /// obligation panics (caught by the caller).
         #[cfg(not(kani))]
         pub fn run(name: &str, tape: &[u8]) -> Option<bool> {
+            run_opts(name, tape, false)
+        }
+
+        /// `lenient`: see `kit::TapeSrc::lenient`.
+        #[cfg(not(kani))]
+        pub fn run_opts(name: &str, tape: &[u8], lenient: bool) -> Option<bool> {
             let mut s = kit::TapeSrc::new(tape);
+            s.lenient = lenient;
             match name {
                 $( stringify!($pn) => { $pm::$pn(&mut s); } )*
                 $( stringify!($sn) => { $sm::$sn(&mut s); } )*
